@@ -128,19 +128,18 @@ get_cache_buf(addrxlat_ctx_t *ctx, const addrxlat_fulladdr_t *addr,
 			goto out;
 	} while (++slot < &ctx->cache.slot[READ_CACHE_SLOTS]);
 
-	/* Not found - a new page must be read.
-	 * The get-page callback may read through this context again. The
-	 * check at the end of this function catches a nested read of the
-	 * page that is being read only if the slot held a page before and
-	 * has not been recycled by another nested read, so the nesting
-	 * itself must be bounded.
+	/* Not found - use the least recently used slot which is not
+	 * being filled by a get-page callback that led to this read.
+	 * Recycling such a slot would lose the page of the nested read
+	 * as soon as the outer callback stores its own page there.
 	 */
-	if (ctx->cache.nesting >= MAX_READ_NESTING)
-		return set_error(ctx, ADDRXLAT_ERR_NODATA,
-				 "Too many nested page reads");
-
-	/* Use the LRU slot */
 	slot = ctx->cache.mru->prev;
+	while (slot->filling) {
+		if (slot == ctx->cache.mru)
+			return set_error(ctx, ADDRXLAT_ERR_NODATA,
+					 "Too many nested page reads");
+		slot = slot->prev;
+	}
 
 	/* Free up the slot if necessary */
 	if (slot->buffer.size)
@@ -150,9 +149,9 @@ get_cache_buf(addrxlat_ctx_t *ctx, const addrxlat_fulladdr_t *addr,
 	slot->buffer.addr = *addr;
 	slot->buffer.ptr = NULL;
 	slot->buffer.put_page = def_put_page_cb;
-	++ctx->cache.nesting;
+	slot->filling = 1;
 	status = ctx->cb->get_page(ctx->cb, &slot->buffer);
-	--ctx->cache.nesting;
+	slot->filling = 0;
 	if (status != ADDRXLAT_OK) {
 		slot->buffer.size = 0;
 		return status;
